@@ -131,9 +131,20 @@ def lifecycle_scenarios(tier):
         scs.append({"scenario": "c04xl", "hists-file": hist_file("c04-hist-4.txt", h4), "bound": 1, "glib": 0, "_shards": vlib.NCPU, "_nhist": len(h4)})
         rc = ["%s %d 1" % (h, i) for h in h4 for i in range(len(h) + 1)]
         scs.append({"scenario": "c04xh", "hists-file": hist_file("c04-hist-4-racer.txt", rc), "bound": 1, "glib": 1, "_shards": vlib.NCPU, "_nhist": len(rc)})
+        # a sink that logs itself while a stop delivers the backlog; a SECOND thread that stops the logger at the same time
+        nest = ["AMLLR", "AMLLLR", "AMLLX", "AMLLaR", "MLLAR", "AMLL"]
+        scs.append({"scenario": "c04xh", "hists-file": hist_file("c04-hist-nested.txt", nest), "bound": 1, "glib": 1, "nested": 1, "_shards": len(nest), "_nhist": len(nest)})
+        two = ["%s %d 1" % (h, i) for h in ("AMLLR", "AMLLX", "AMLR", "MLLR", "AMLLaR", "AMLRMLR") for i in range(2, len(h))]
+        scs.append({"scenario": "c04xh", "hists-file": hist_file("c04-hist-twostops.txt", two), "bound": 1, "glib": 1, "racer-reset": 1, "_shards": vlib.NCPU, "_nhist": len(two)})
+        scs.append({"scenario": "c04xl", "hists-file": hist_file("c04-hist-twostops.txt", two), "bound": 0, "glib": 0, "racer-reset": 1, "_shards": 4, "_nhist": len(two)})
         h7 = histories(7)      # long histories under the default schedule only (the worker runs ahead after every operation)
         scs.append({"scenario": "c04xh", "hists-file": hist_file("c04-hist-7.txt", h7), "bound": 0, "glib": 1, "_shards": vlib.NCPU, "_nhist": len(h7)})
     else:
+        nest = [h for h in histories(5) if h.count("L") >= 2]
+        scs.append({"scenario": "c04xh", "hists-file": hist_file("c04-hist-nested5.txt", nest), "bound": 1, "glib": 1, "nested": 1, "_shards": 2 * vlib.NCPU, "_nhist": len(nest)})
+        two = ["%s %d 1" % (h, i) for h in histories(5) if ("R" in h or "X" in h) for i in range(1, len(h) + 1)]
+        scs.append({"scenario": "c04xh", "hists-file": hist_file("c04-hist-twostops5.txt", two), "bound": 1, "glib": 1, "racer-reset": 1, "_shards": 2 * vlib.NCPU, "_nhist": len(two)})
+        scs.append({"scenario": "c04xl", "hists-file": hist_file("c04-hist-twostops5.txt", two), "bound": 1, "glib": 0, "racer-reset": 1, "_shards": 2 * vlib.NCPU, "_nhist": len(two)})
         h8 = histories(8)
         scs.append({"scenario": "c04xh", "hists-file": hist_file("c04-hist-8.txt", h8), "bound": 0, "glib": 1, "_shards": 2 * vlib.NCPU, "_nhist": len(h8)})
         scs.append({"scenario": "c04xl", "hists-file": hist_file("c04-hist-8.txt", h8), "bound": 0, "glib": 0, "_shards": 2 * vlib.NCPU, "_nhist": len(h8)})
@@ -189,7 +200,8 @@ def run(tier):
              "LIFECYCLE HISTORIES (scenario c04x*): every well-formed sequence up to the length bound of {create / destroy the application object, moveToOwnThread, log, resetOwnThread, "
              "quit+exec (aboutToQuit), nested event loop until idle} on one handler, ended by its destruction, optionally with a racing producer started at every position; each history is "
              "explored over all schedules up to the deviation bound with the same oracles after every stop operation (the stop returns; everything accepted before it is delivered; "
-             "messages logged while no logger thread exists are handled synchronously on the caller's thread; at the end delivered = accepted, exactly once, per-thread order)",
+             "messages logged while no logger thread exists are handled synchronously on the caller's thread; at the end delivered = accepted, exactly once, per-thread order); further families: the sink logs a message itself while a stop is delivering the backlog (nested=1); a SECOND thread "
+             "calls resetOwnThread() from every position while the main thread performs the history (two overlapping stops: no crash, no hang, nothing lost)",
         assumptions=vsrun.VS_ASSUMPTIONS + ["a racing producer is only explored on paths 1 and 2: calling into an object while its destructor runs is undefined behaviour of the caller"],
         extra_violations=rq_viols, extra_cov={"real_qt_runs": rq_n})
 
